@@ -127,11 +127,11 @@ prop("C14",
      bounds="value table of 6 slots x 32 bytes with arbitrary disk content constrained only by the free-list invariant; one operation per harness (inductive step)",
      outside="btree reachability, ref-count table vs parent counts, recovery, growth leftovers, iteration; column-level index<->value consistency (DESIGN 3.7)",
      assumptions=["pre-state satisfies the free-list representation invariant (acyclic, in range, tombstones only)"])
-add("C14", H("table", "c14_t1_next_free_step", "quick", ["C14.T1", "C14.T2h"], "disk:[u8;192], filled, last_removed, flags", "6 slots x 32 bytes; unwind 200", 900, 8,
-             unwind=200, stubs=ENV + OVERLAY + TFILE, replay="playback-native-env"))
-add("C14", H("table", "c14_t2_clear_slot_step", "quick", ["C14.T2"], "disk:[u8;192], filled, last_removed, freed slot", "6 slots x 32 bytes; unwind 200", 900, 8,
-             unwind=200, stubs=ENV + OVERLAY + TFILE, replay="playback-native-env"))
-add("C14", H("table", "c14_twin_must_fail", "quick", [], "as T1", "must-fail twin", 900, 8, twin=True, unwind=200, stubs=ENV + OVERLAY + TFILE))
+add("C14", H("table", "c14_t1_next_free_step", "quick", ["C14.T1", "C14.T2h"], "disk:[u8;192], filled, last_removed, flags", "6 slots x 32 bytes; unwind 40", 900, 8,
+             unwind=40, stubs=ENV + OVERLAY + TFILE, replay="playback-native-env"))
+add("C14", H("table", "c14_t2_clear_slot_step", "quick", ["C14.T2"], "disk:[u8;192], filled, last_removed, freed slot", "6 slots x 32 bytes; unwind 40", 900, 8,
+             unwind=40, stubs=ENV + OVERLAY + TFILE, replay="playback-native-env"))
+add("C14", H("table", "c14_twin_must_fail", "quick", [], "as T1", "must-fail twin", 900, 8, twin=True, unwind=40, stubs=ENV + OVERLAY + TFILE))
 
 # ======================================================================================== C13
 prop("C13",
@@ -330,8 +330,8 @@ PROPS["C08"]["functions"] += ["HashColumn::claim_tree_values (rejected node clai
 
 add("C01", H("table", "c01_g1_value_table_log_index", "quick", ["C01.G1"], "two (column, tier) pairs, column count", "loop-free; all values", 300, 2))
 PROPS["C01"]["functions"] += ["table::TableId::{new, log_index, from_log_index, max_log_tables}"]
-add("C14", H("table", "c14_t0_init_free_stack_matches_disk_list", "quick", ["C14.T0"], "disk:[u8;192], filled, last_removed (free list of <= 3 slots)", "6 slots x 32 bytes; unwind 200", 1200, 8,
-             unwind=200, stubs=ENV + OVERLAY + TFILE, replay="playback-native-env"))
+add("C14", H("table", "c14_t0_init_free_stack_matches_disk_list", "quick", ["C14.T0"], "disk:[u8;192], filled, last_removed (free list of <= 3 slots)", "6 slots x 32 bytes; unwind 40", 1200, 12,
+             unwind=40, stubs=ENV + OVERLAY + TFILE, replay="playback-native-env"))
 PROPS["C14"]["functions"] += ["ValueTable::{init_table_data, claim_entries}"]
 add("C13", H("log", "c13_r1_clear_replay_logs_discards_everything", "quick", ["C13.R1"], "active reader present or not, 0..=2 queued replay files", "one call; unwind 8", 900, 6,
              unwind=8, stubs=ENV + FEV, replay="solver-trace-only"))
@@ -352,3 +352,24 @@ for fn, tier in (("c12_o3b_db_clean_logs_q1", "quick"), ("c12_o3b_db_clean_logs_
     add("C12", H("db", fn, tier, ["C12.O3"], "sync_data flag; 1-2 dirty logs; optionally a log becomes dirty while the tables are being flushed", "struct-literal DbInner with one miniature hash column (3 value tables); unwind 26", 1800, 10,
                  unwind=26, stubs=ENV + FEV + TFILE + ["model: TableFile::flush may (nondeterministically) coincide with another worker appending a log file to the cleanup queue"], replay="solver-trace-only"))
 PROPS["C12"]["functions"] += ["DbInner::clean_logs", "Column::flush / HashColumn::flush"]
+
+# ---- C09.Q: lookups through current and queued indexes (OvView)
+FINDC = ["stub: IndexTable::find_entry -> its contract (first slot >= start that is non-empty with equal partial key); the C19 harnesses show the real search refines it (superset of candidates for index sizes 16-17)"]
+OVVIEW = ["model: read paths generic in `impl LogQuery` are driven with harness type OvView (same array overlay, index pages from statics)"]
+for fn, tier in (("c09_q_lookup_current_index", "thorough"), ("c09_q_lookup_first_queued_index", "quick"), ("c09_q_lookup_second_queued_index", "quick")):
+    add("C09", H("column", fn, tier, ["C09.Q", "C14.Q"], "key tails of two colliding keys (24 bytes each), values, a third tail", "miniature hash column, index sizes 16/17/18 (two queued for reindex), one page; unwind 66", 2400, 12,
+                 unwind=66, stubs=ENV + OVERLAY + TFILE + FINDC + OVVIEW, replay="solver-trace-only"))
+PROPS["C09"]["functions"] += ["HashColumn::{get, get_in_index}", "IndexTable::{get, find_entry}", "Column::get_value", "ValueTable::{query, for_parts}"]
+PROPS["C09"]["bounds"] += "; lookups: one page with two colliding entries, key tails symbolic, entry in the current or in one of two queued older indexes"
+
+# ---- C07.W / C09.W / C14.W: one write_plan step on colliding keys (mapsub)
+for fn, tier in (("c07_w_deref_second_candidate_rc", "quick"), ("c07_w_deref_second_candidate_plain", "quick"), ("c07_w_deref_first_candidate_rc", "thorough"),
+                 ("c07_w_reference_second_candidate_rc", "quick"), ("c07_w_set_second_candidate_rc", "thorough"), ("c07_w_set_second_candidate_plain", "thorough"), ("c07_w_deref_absent_key", "thorough")):
+    for pid in ("C07", "C09", "C14"):
+        if pid != "C07" and fn not in ("c07_w_deref_second_candidate_rc", "c07_w_deref_second_candidate_plain", "c07_w_deref_absent_key"):
+            continue
+        add(pid, H("column", fn, tier, ["C07.W", "C09.W", "C14.W"], "key tails of three keys sharing page and partial key, counters, values", "miniature hash column, one 64-slot page with two colliding entries, one write_plan; unwind 66", 2400, 12,
+                   variant="mapsub", unwind=66, stubs=ENV + OVERLAY + TFILE + FINDC + MAPSUB, replay="solver-trace-only"))
+        _ms(pid)
+for pid in ("C07", "C09", "C14"):
+    PROPS[pid]["functions"] += ["HashColumn::{write_plan, write_plan_existing, search_all_indexes, search_index}", "IndexTable::{get, write_remove_plan, write_insert_plan}", "ValueTable::has_key_at"]
